@@ -436,7 +436,7 @@ theorem rt_range {cs : CharSpec} (lo hi : ANum) (p : VPad) (hlo : lo.ok = true) 
     rangeValue (α := α) true ts = some (.ok (.range lo.denote hi.denote)) := by
   simp only [VPad.ok, Bool.and_eq_true] at hp
   obtain ⟨⟨⟨⟨⟨hpre, hpost⟩, hplo⟩, hphi⟩, hm1⟩, hm2⟩ := hp
-  simp only [spellVal, List.append_assoc, List.cons_append, List.nil_append] at hs
+  simp only [spellVal, spellCore, List.append_assoc, List.cons_append, List.nil_append] at hs
   obtain ⟨pre, r1, rfl, hpre', hs⟩ := hs.append_inv
   obtain ⟨tlo, r2, rfl, hlo', hs⟩ := hs.append_inv
   obtain ⟨m1, r3, rfl, hm1', hs⟩ := hs.append_inv
@@ -783,7 +783,7 @@ theorem rt_numOrRange {cs : CharSpec} (v : AVal) (p : VPad) (hv : v.ok cs = true
     have hp' := hp
     simp only [VPad.ok, Bool.and_eq_true] at hp
     obtain ⟨⟨⟨⟨⟨hpre, hpost⟩, hplo⟩, hphi⟩, hm1⟩, hm2⟩ := hp
-    simp only [spellVal] at hs
+    simp only [spellVal, spellCore] at hs
     obtain ⟨r1, post, rfl, hs, hpost'⟩ := hs.append_inv
     obtain ⟨pre, mid, rfl, hpre', hmid⟩ := hs.append_inv
     have bpre := padOK_blank (hpre'.padOK_of hpre)
@@ -820,7 +820,7 @@ theorem rt_range_off {cs : CharSpec} (lo hi : ANum) (p : VPad) (hp : p.ok cs = t
   obtain ⟨⟨⟨⟨⟨hpre, hpost⟩, hplo⟩, hphi⟩, hm1⟩, hm2⟩ := hp
   obtain ⟨h, r, hh, hhk⟩ := rt_spellNum_head lo p.lo
   obtain ⟨i, l, hl, hlk⟩ := rt_spellNum_last hi p.hi
-  simp only [spellVal, hh, hl, List.append_assoc, List.cons_append, List.nil_append] at hs
+  simp only [spellVal, spellCore, hh, hl, List.append_assoc, List.cons_append, List.nil_append] at hs
   obtain ⟨pre, r1, rfl, hpre', hs⟩ := hs.append_inv
   obtain ⟨th, r2, rfl, hthk, -, hs⟩ := hs.cons_inv
   obtain ⟨tr, r3, rfl, -, hs⟩ := hs.append_inv
